@@ -27,6 +27,8 @@ struct Outcome
     bool documented = true;
     tapkee::TapkeeOutput out;
 };
+// label of the padding elements that surround the samples in the container embed_uniform hands over (never a valid label)
+static const int NOT_A_SAMPLE = -7777777;
 Outcome guarded_embed(std::vector<int>& indices, VCallbacks& cb, tapkee::ParametersSet params);
 
 // One output variable per thread that every harness call assigns its result over, the way a caller that reuses one variable
